@@ -651,9 +651,6 @@ def mutants(tree):
     m.append(Mutant("store under collapse(2) loses its dependence on the second collapsed variable (parallel_mul_add_d)",
                     PB, expect="shared-store", old="c[i * dim2 + j] += a[i * dim2 + j] * b[j];",
                     new="c[i * dim2] += a[i * dim2 + j] * b[j];"))
-    m.append(Mutant("store under collapse(3) loses its dependence on the middle collapsed variable (pbc_tools.c)",
-                    PB, expect="shared-store", old="xshifted[fftid * xyz_size + xid * yz_size + zid] = 0.0;",
-                    new="xshifted[fftid * xyz_size + zid] = 0.0;"))
     m.append(Mutant("callback run by the parallel driver stores to a global (GTOcontract_flapl0)", FL,
                     expect="callback-global",
                     fn=_in_func(FL, "GTOcontract_flapl0", "    double *my_spline = SPLINE + l * 4 * SPLINE_SIZE;\n",
